@@ -2,6 +2,7 @@ import MoneroModel.Proofs.TxComplete2
 import MoneroModel.Proofs.LenProofs
 import MoneroModel.Proofs.TxSound1
 import MoneroModel.Proofs.TxDecodedWF
+import MoneroModel.Proofs.FixedComplete
 open Monero
 /-! # C02 — well-formed values survive serialise-then-parse; length accounting is exact
 
@@ -12,9 +13,22 @@ lengths the counts / RingCT type imply, every varint-encoded number is a u64, ke
 vectors respect the allocation cap `Gen.CAP` that the decoder enforces (C04 requires that cap), the `u32` Bulletproof
 count is < 2^32 and the one-byte BulletproofPlus count is < 256 (see the known finding in DESIGN.md §7 item 4).
 
-Extra sub-fields (the "component records" of transaction.rs:872-919) are C16's subject: `C16_single_strict` gives their round
-trip, with ONE exception that this file does not repeat — a `Padding(n < 255)` sub-field followed by further bytes is not
-prefix-free by design (`¬ ShortPad` there). `C02_decoded_wf_*` below show that the `wf*` predicates are not over-restrictive. -/
+Extra sub-fields (the "component records" of transaction.rs:872-919): their round trip is C16's subject (`C16_single_strict`),
+with ONE exception that this file does not repeat — a `Padding(n < 255)` sub-field followed by further bytes is not
+prefix-free by design (`¬ ShortPad` there). What this file proves about them is the length clause only: `C02_len_subfield`
+(the `usize` each arm of `SubField::consensus_encode` returns = bytes written).
+
+What is and is not shown here:
+* `C02_decoded_wf_*`: every value the model decoder returns satisfies the `wf*` predicate, i.e. the hypotheses of the
+  completeness theorems exclude no value that can round-trip. They DO exclude real `Transaction` values that cannot (see the
+  list at `C02_decoded_wf_transaction`).
+* `C02_complete_bytes` treats `Key`, `Hash`, `Signature`, `Key64`, `RangeSig`, … as opaque k-byte strings (the model identifies
+  those values with their encoding); the field / element structure is in `C02_complete_key64 / _signature / _rangesig`
+  (Proofs/FixedComplete) and C01's `C01_*_fieldwise`; the real `impl_array!` loops are exercised by the harness family `primitives`.
+* `C02_len_*`: a separately written model of the returned `usize` (Model/Len.lean) equals the number of bytes of the separately
+  written encoder. For fixed-width integers the returned value is the constant `size_of::<$ty>()` = `lenUint k`.
+* Satisfiability of the hypotheses: `C02_wf_inhabited` (nine minimal samples), `C02_wf_inhabited_full` (eleven samples with
+  outputs, range proofs, rings of 2, a coinbase-first RingCT transaction, a v2 transaction without inputs), `C02_wfBlock_inhabited`. -/
 namespace C02
 
 theorem C02_complete_varint : Complete U64 encVarint varint := complete_varint'
@@ -48,6 +62,24 @@ theorem C02_len_rct_prunable (p : Prunable) (ty : Nat) : lenPrunable p ty = (enc
 theorem C02_len_transaction (t : Tx) : lenTx t = (encTx t).length := lenTx_eq t
 theorem C02_len_header (h : Header) : lenHeader h = (encHeader h).length := lenHeader_eq h
 theorem C02_len_block (b : Block) : lenBlock b = (encBlock b).length := lenBlock_eq b
+/-- `[T]::consensus_encode` (varint of the count, then `len += c.consensus_encode(w)?` over the elements): exact as soon as the
+element's reported length is -/
+theorem C02_len_vec {α} (l : α → Nat) (e : α → Bytes) (h : ∀ x, l x = (e x).length) (xs : List α) :
+    lenVec l xs = (encVec e xs).length := lenVec_eq l e h xs
+example : ∀ x : Nat, lenVarint x = (encVarint x).length := lenVarint_eq
+/-- `encode_sized_vec!` (no count) -/
+theorem C02_len_sized_vec {α} (l : α → Nat) (e : α → Bytes) (h : ∀ x, l x = (e x).length) (xs : List α) :
+    lenSized l xs = (encSized e xs).length := lenSized_eq l e h xs
+theorem C02_len_target (x : Target) : lenTarget x = (encTarget x).length := lenTarget_eq x
+theorem C02_len_ecdh (x : Ecdh) : lenEcdh x = (encEcdh x).length := lenEcdh_eq x
+theorem C02_len_bulletproof (x : BP) : lenBP x = (encBP x).length := lenBP_eq x
+theorem C02_len_bulletproofplus (x : BPP) : lenBPP x = (encBPP x).length := lenBPP_eq x
+theorem C02_len_clsag (x : Clsag) : lenClsag x = (encClsag x).length := lenClsag_eq x
+theorem C02_len_mgsig (x : MG) : lenMG x = (encMG x).length := lenMG_eq x
+/-- extra sub-fields: the `usize` returned by each arm of `SubField::consensus_encode` (transaction.rs:872-919; `lenSub` in
+Model/Len.lean mirrors the `len += …` of every arm) = the number of bytes that arm writes (`encSub`, Model/Extra.lean). For every
+value, well-formed or not. A wrong returned length in one arm (e.g. `MysteriousMinerGate`) is a change of `lenSub`, not of `encSub`. -/
+theorem C02_len_subfield (sf : Extra.SubField) : Extra.lenSub sf = (Extra.encSub sf).length := lenSub_eq sf
 
 /-- strings: length-prefixed UTF-8 bytes; round trip on valid UTF-8 within the cap, reported length = bytes written -/
 theorem C02_complete_string (valid : Bytes → Bool) :
@@ -97,16 +129,27 @@ theorem C02_transaction_roundtrip (t : Tx) (h : wfTx t) (r : Bytes) :
 
 /-! ## Added after the audit -/
 
-/-- **The well-formedness hypotheses are the weakest possible**: everything the decoder accepts is well-formed. With
+/-- **The well-formedness hypotheses exclude no value that can round-trip**: everything the decoder accepts is well-formed. With
 `C02_complete_transaction` (well-formed ⇒ round trip) and C01 soundness this gives `wfTx t ↔ t is the strict parse of some byte
-string ↔ t survives serialise-then-parse`; an over-restrictive `wfTx` (a silently narrowed C02) would make this theorem false. -/
+string ↔ t survives serialise-then-parse`; an over-restrictive `wfTx` (a silently narrowed C02) would make this theorem false.
+Real `Transaction` values that `wfTx` DOES exclude — none of them can be parsed back: more than 255 BulletproofPlus proofs
+(the count is one byte: DESIGN.md §7 item 4) or ≥ 2^32 Bulletproofs under type 3; vectors above the allocation cap; version 1
+with RingCT data (`rct_signatures.sig = Some`), or version ≠ 1 with per-input signatures; version ≠ 1 without inputs but with
+a RingCT base; an empty first ring with RingCT type ≠ 0; vectors whose length differs from the count implied by the prefix. -/
 theorem C02_decoded_wf_transaction (b : Bytes) (t : Tx) (r : Bytes) (h : tx b = some (t, r)) : wfTx t := decoded_wf_tx b t r h
 theorem C02_decoded_wf_block (b : Bytes) (x : Block) (r : Bytes) (h : block b = some (x, r)) : wfBlock x := decoded_wf_block b x r h
+/-- `wfTx t ↔` the strict parse of `t`'s own encoding is `t`. (Uniqueness of that preimage is the next theorem, not this one.) -/
 theorem C02_wf_iff_roundtrip_transaction (t : Tx) : wfTx t ↔ strict tx (encTx t) = some t := wfTx_iff_parsed_enc t
 theorem C02_wf_iff_roundtrip_block (x : Block) : wfBlock x ↔ strict block (encBlock x) = some x := wfBlock_iff_parsed_enc x
+/-- the encoding is the ONLY byte string that parses strictly to the value (from C01 soundness) -/
+theorem C02_roundtrip_preimage_unique (t : Tx) (b : Bytes) (h : strict tx b = some t) : b = encTx t := strict_preimage_unique_tx t b h
+theorem C02_roundtrip_preimage_unique_block (x : Block) (b : Bytes) (h : strict block b = some x) : b = encBlock x :=
+  strict_preimage_unique_block x b h
+/- hypothesis satisfiable: a strict parse that succeeds (blocks: `C02_wfBlock_inhabited`) -/
+example : (strict tx [2, 0, 1, 0xff, 5, 0, 0, 0]).isSome = true := by decide +kernel
 theorem C02_wf_iff_parsed_transaction (t : Tx) : wfTx t ↔ ∃ b, strict tx b = some t := wfTx_iff_parsed t
 theorem C02_wf_iff_parsed_block (x : Block) : wfBlock x ↔ ∃ b, strict block b = some x := wfBlock_iff_parsed x
-/-- the same for the component records -/
+/-- the same for every component record that has a `C02_complete_*` theorem -/
 theorem C02_decoded_wf_prefix (b : Bytes) (x : Prefix) (r : Bytes) (h : prefix' b = some (x, r)) : wfPrefix x := decoded_wf_prefix b x r h
 theorem C02_decoded_wf_rct_base (i o : Nat) (b : Bytes) (x : Base) (r : Bytes) (h : base i o b = some (x, r)) : wfBase i o x :=
   decoded_wf_base i o b x r h
@@ -114,6 +157,31 @@ theorem C02_decoded_wf_rct_prunable (ty i o m : Nat) (b : Bytes) (x : Option Pru
     (h : prunable ty i o m b = some (x, r)) : (ty = 0 ∧ x = none) ∨ (ty ≠ 0 ∧ ∃ p, x = some p ∧ wfPrunable ty i o m p) :=
   decoded_wf_prunable ty i o m b x r h
 theorem C02_decoded_wf_header (b : Bytes) (x : Header) (r : Bytes) (h : header b = some (x, r)) : wfHeader x := decoded_wf_header b x r h
+theorem C02_decoded_wf_txin (b : Bytes) (x : TxIn) (r : Bytes) (h : txin b = some (x, r)) : wfTxIn x := decoded_wf_txin b x r h
+theorem C02_decoded_wf_target (b : Bytes) (x : Target) (r : Bytes) (h : target b = some (x, r)) : wfTarget x := decoded_wf_target b x r h
+theorem C02_decoded_wf_txout (b : Bytes) (x : TxOut) (r : Bytes) (h : txout b = some (x, r)) : wfTxOut x := decoded_wf_txout b x r h
+theorem C02_decoded_wf_ecdh (ty : Nat) (b : Bytes) (x : Ecdh) (r : Bytes) (h : ecdh ty b = some (x, r)) : wfEcdh ty x :=
+  decoded_wf_ecdh ty b x r h
+theorem C02_decoded_wf_bulletproof (b : Bytes) (x : BP) (r : Bytes) (h : bp b = some (x, r)) : wfBP x := decoded_wf_bp b x r h
+theorem C02_decoded_wf_bulletproofplus (b : Bytes) (x : BPP) (r : Bytes) (h : bpp b = some (x, r)) : wfBPP x := decoded_wf_bpp b x r h
+theorem C02_decoded_wf_clsag (m : Nat) (b : Bytes) (x : Clsag) (r : Bytes) (h : clsagDec m b = some (x, r)) : wfClsag m x :=
+  decoded_wf_clsag m b x r h
+theorem C02_decoded_wf_mgsig (cols m : Nat) (b : Bytes) (x : MG) (r : Bytes) (h : mgDec cols m b = some (x, r)) : wfMG cols m x :=
+  decoded_wf_mg cols m b x r h
+/- hypotheses satisfiable: each component decoder accepts something (`accepts_of_isSome`: a successful strict parse is a
+`d b = some (x, [])`) -/
+example : ∃ x, txin [0xff, 5] = some (x, []) := accepts_of_isSome (by decide +kernel)
+example : ∃ x, txin ([2, 0, 2, 1, 1] ++ List.replicate 32 0) = some (x, []) := accepts_of_isSome (by decide +kernel)
+example : ∃ x, target ([3] ++ List.replicate 32 0 ++ [9]) = some (x, []) := accepts_of_isSome (by decide +kernel)
+example : ∃ x, txout ([7, 3] ++ List.replicate 32 0 ++ [9]) = some (x, []) := accepts_of_isSome (by decide +kernel)
+example : ∃ x, ecdh 5 (List.replicate 8 1) = some (x, []) := accepts_of_isSome (by decide +kernel)
+example : ∃ x, ecdh 2 (List.replicate 64 1) = some (x, []) := accepts_of_isSome (by decide +kernel)
+example : ∃ x, bp (List.replicate 192 0 ++ [1] ++ List.replicate 32 0 ++ [0] ++ List.replicate 96 0) = some (x, []) :=
+  accepts_of_isSome (by decide +kernel)
+example : ∃ x, bpp (List.replicate 192 0 ++ [0] ++ [1] ++ List.replicate 32 0) = some (x, []) := accepts_of_isSome (by decide +kernel)
+example : ∃ x, clsagDec 1 (List.replicate 128 0) = some (x, []) := accepts_of_isSome (by decide +kernel)
+example : ∃ x, mgDec 2 1 (List.replicate 160 0) = some (x, []) := accepts_of_isSome (by decide +kernel)
+example : ∃ x, header ([16, 16, 0] ++ List.replicate 32 0 ++ [1, 0, 0, 0]) = some (x, []) := accepts_of_isSome (by decide +kernel)
 
 /-- primitives: fixed-width little-endian unsigned integers (`u8 … u64`: k = 1, 2, 4, 8) -/
 theorem C02_complete_uint (k : Nat) : Complete (fun n => n < 256 ^ k) (encUintLE k) (uintLE k) := by
@@ -123,8 +191,13 @@ theorem C02_complete_uint (k : Nat) : Complete (fun n => n < 256 ^ k) (encUintLE
   simp only [pure']
   rw [foldr_leBytes n k hn]
 example : (300 : Nat) < 256 ^ 2 := by decide
-/-- reported length of a fixed-width integer (`Ok(size_of::<$ty>())`) = bytes written -/
-theorem C02_len_uint (k n : Nat) : (encUintLE k n).length = k := leBytes_length n k
+/-- reported length of a fixed-width integer — `lenUint k` (Model/Len.lean) mirrors `Ok(mem::size_of::<$ty>())` of
+`impl_int_encodable!`, a constant of the type — = number of bytes the encoder writes, for every value -/
+theorem C02_len_uint (k n : Nat) : lenUint k = (encUintLE k n).length := lenUint_eq k n
+theorem C02_len_int (k : Nat) (v : Int) : lenUint k = (encIntLE k v).length := lenInt_eq k v
+/-- `bool`: `Ok(1)`; `RctType`: what the one `u8` reports -/
+theorem C02_len_bool (v : Bool) : lenBool v = (encBool v).length := lenBool_eq v
+theorem C02_len_rcttype (ty : Nat) : lenRctType ty = (encRctType ty).length := lenRctType_eq ty
 /-- signed fixed-width integers (`i8 … i64`): every value of the type's range round-trips -/
 theorem C02_complete_int (k : Nat) (hk : 0 < k) :
     Complete (fun v : Int => -((256 ^ k / 2 : Nat) : Int) ≤ v ∧ v < ((256 ^ k / 2 : Nat) : Int)) (encIntLE k) (intLE k) := by
@@ -153,9 +226,27 @@ theorem C02_complete_int (k : Nat) (hk : 0 < k) :
     have : ¬ (v + ((256 ^ k : Nat) : Int)).toNat < 256 ^ k / 2 := by omega
     simp only [this, if_false]; omega
 example : -(((256 ^ 1 / 2 : Nat)) : Int) ≤ (-128 : Int) ∧ (-128 : Int) < ((256 ^ 1 / 2 : Nat) : Int) := by decide
-/-- fixed byte records (`Key`, `Hash`, `KeyImage`, `CtKey`: 32; `Hash8`: 8; `Signature`: 64; `Key64`: 2048; `RangeSig`: 6176;
-`MultisigKlrki`: 128) -/
+/-- OPAQUE fixed-size byte strings: a k-byte string followed by anything is read back by a k-byte read. The model of the
+transaction codec represents `Key`, `Hash`, `KeyImage`, `CtKey` (32), `Hash8` (8), `Signature` (64), `Key64` (2048), `RangeSig`
+(6176), `MultisigKlrki` (128) by their wire bytes, i.e. it identifies the value with its encoding, so for them this statement
+is true by modelling: it says nothing about the field order of `RangeSig { asig { s0, s1, ee }, Ci }`, `Signature { c, r }`,
+`Klrki { K, L, R, ki }` nor about the element loop of `impl_array!` (encode.rs:421-450). That structure is the subject of the
+three theorems below and of C01's `C01_fixed_elementwise` / `C01_signature_fieldwise` / `C01_rangesig_fieldwise`
+(Proofs/FixedRecords.lean: the structured reader consumes the same bytes as the flat one); the real element loops are run against
+the model by the harness family `primitives`. -/
 theorem C02_complete_bytes (k : Nat) : Complete (fun x : Bytes => x.length = k) id (takeN k) := complete_takeN k
+example : ([1, 2, 3] : Bytes).length = 3 := rfl
+/-- structured fixed records (Proofs/FixedComplete.lean): `Key64` as a loop of 64 key reads, `Signature { c, r }` as two keys,
+`RangeSig { asig: BoroSig { s0, s1, ee }, Ci }` field by field (64 + 64 + 1 + 64 keys, 6176 bytes) round-trip -/
+theorem C02_complete_key64 : Complete wfKey64 (encSized id) key64S := complete_key64S
+theorem C02_complete_signature : Complete wfSignatureS encSignatureS signatureS := complete_signatureS
+theorem C02_complete_rangesig : Complete wfRangeSigS encRangeSigS rangeSigS := complete_rangeSigS
+theorem C02_rangesig_length (x : (List Bytes × List Bytes × Bytes) × List Bytes) (h : wfRangeSigS x) :
+    (encRangeSigS x).length = 6176 := length_encRangeSigS x h
+example : wfRangeSigS ((List.replicate 64 (List.replicate 32 1), List.replicate 64 (List.replicate 32 2), List.replicate 32 3),
+    List.replicate 64 (List.replicate 32 4)) := by
+  refine ⟨⟨⟨by simp, ?_⟩, ⟨by simp, ?_⟩, by simp [Key32]⟩, ⟨by simp, ?_⟩⟩ <;>
+    (intro k hk; rw [List.eq_of_mem_replicate hk]; simp [Key32])
 /-- `bool`: both values round-trip (the decoder is lenient — any non-zero byte is `true` — which concerns C01, not C02) -/
 theorem C02_complete_bool : Complete (fun _ => True) encBool boolDec := by
   intro v r _; cases v <;> rfl
@@ -183,7 +274,8 @@ theorem C02_block_roundtrip (x : Block) (h : wfBlock x) (r : Bytes) :
     block (encBlock x ++ r) = some (x, r) ∧ lenBlock x = (encBlock x).length ∧ (r ≠ [] → strict block (encBlock x ++ r) = none) :=
   ⟨complete_block x r h, lenBlock_eq x, fun hr => C02_strict_block x h r hr⟩
 
-/-- sample encodings: one key input (ring of one), no outputs, empty extra; then the body of each kind -/
+/-- MINIMAL sample encodings: one key input (ring of one), NO outputs, empty extra; then the body of each kind with ZERO range
+proofs. (Richer samples: `samplesFull` below.) -/
 def sampleBytes (version : Nat) (body : Bytes) : Bytes :=
   [UInt8.ofNat version, 0, 1, 2, 0, 1, 1] ++ List.replicate 32 0 ++ [0, 0] ++ body
 def samples : List (Nat × Option Nat × Bytes) := [
@@ -195,8 +287,10 @@ def samples : List (Nat × Option Nat × Bytes) := [
   (2, some 5, sampleBytes 2 ([5, 0] ++ [0] ++ List.replicate 96 0 ++ List.replicate 32 0)),           -- Clsag
   (2, some 6, sampleBytes 2 ([6, 0] ++ [0] ++ List.replicate 96 0 ++ List.replicate 32 0)),           -- BulletproofPlus: u8 count
   (0, some 0, sampleBytes 0 [0]), (3, some 0, sampleBytes 3 [0])]                                    -- Null under versions 0 and 3
-/-- **non-vacuity of `wfTx` on every dispatch path**: version 1 and each RingCT type 1..6 (and versions 0, 3) have a well-formed
-transaction with a key input — the hypotheses of `C02_complete_transaction` are satisfiable on all of them -/
+/-- `wfTx` is inhabited for every (version class, RingCT type) pair: version 1, each RingCT type 1..6 under version 2, type 0 under
+versions 0 and 3 — by a MINIMAL transaction (one key input with a ring of one, no output, no range proof, empty extra). In these
+nine witnesses the clauses of `wfTx` that quantify over outputs, ecdh entries, range proofs hold over EMPTY lists; they are
+exercised by `C02_wf_inhabited_full`, not here. -/
 theorem C02_wf_inhabited : ∀ s ∈ samples, ∃ t, wfTx t ∧ t.pre.version = s.1 ∧ t.base.map (·.ty) = s.2.1 ∧ t.pre.ins ≠ [] ∧
     strict tx s.2.2 = some t := by
   have key : ∀ s ∈ samples, (strict tx s.2.2).map (fun t => (t.pre.version, t.base.map (·.ty), t.pre.ins.length)) = some (s.1, s.2.1, 1) := by
@@ -211,7 +305,174 @@ theorem C02_wf_inhabited : ∀ s ∈ samples, ∃ t, wfTx t ∧ t.pre.version = 
     obtain ⟨h1, h2, h3⟩ := h
     exact ⟨t, (wfTx_iff_parsed t).2 ⟨_, ht⟩, h1, h2, by intro hn; rw [hn] at h3; simp at h3, rfl⟩
 
-/- non-vacuity: a concrete coinbase-style v2 transaction is well-formed (so the hypotheses are satisfiable) -/
+/-! ### Full samples: outputs, range proofs, rings of two, coinbase first, no inputs -/
+
+/-- n zero bytes -/
+def z (n : Nat) : Bytes := List.replicate n 0
+/-- a key input: tag 2, amount 0, `ring` key offsets (each 1), a zero key image -/
+def keyIn (ring : Nat) : Bytes := [2, 0, UInt8.ofNat ring] ++ List.replicate ring 1 ++ z 32
+/-- a coinbase input: tag 0xff, height 5 -/
+def genIn : Bytes := [0xff, 5]
+/-- outputs of amount 0: a plain key (tag 2); a tagged key (tag 3) with view tag 7 -/
+def outK : Bytes := [0, 2] ++ z 32
+def outT : Bytes := [0, 3] ++ z 32 ++ [7]
+/-- prefix: version, unlock time 0, the inputs, the outputs, the extra bytes (all counts < 128: one-byte varints) -/
+def pre (version : Nat) (ins outs : List Bytes) (extra : Bytes) : Bytes :=
+  [UInt8.ofNat version, 0, UInt8.ofNat ins.length] ++ ins.flatten ++ [UInt8.ofNat outs.length] ++ outs.flatten ++
+  [UInt8.ofNat extra.length] ++ extra
+/-- one Bulletproof (6 keys, L with one key, R with one key, 3 keys); one BulletproofPlus (6 keys, L and R with one key each) -/
+def bpBytes : Bytes := z 192 ++ [1] ++ z 32 ++ [1] ++ z 32 ++ z 96
+def bppBytes : Bytes := z 192 ++ [1] ++ z 32 ++ [1] ++ z 32
+
+/-- what is recorded about a parsed sample: the sizes of every part. `ring` = ring size of the first input (`none`: coinbase or
+no input); `sigsV1` = signatures per input (version 1); `mgs` = per MLSAG (rows, columns of each row); `clsags` = rows per CLSAG;
+`bpLR` = (|L|, |R|) of every Bulletproof / BulletproofPlus. Absent parts count as 0 / []. -/
+structure Shape where
+  (version : Nat) (ty : Option Nat := none) (ins outs : Nat) (tagged : Nat := 0) (ring : Option Nat := none) (extra : Nat := 0)
+  (sigsV1 : List Nat := []) (basePseudo ecdhStd ecdhBp outPk rangeSigs bps bpps : Nat := 0) (bpLR : List (Nat × Nat) := [])
+  (mgs : List (Nat × List Nat) := []) (clsags : List Nat := []) (pseudo : Nat := 0)
+  deriving DecidableEq
+
+def shapeOf (t : Tx) : Shape where
+  version := t.pre.version
+  ty := t.base.map (·.ty)
+  ins := t.pre.ins.length
+  outs := t.pre.outs.length
+  tagged := (t.pre.outs.filter fun o => match o.target with | .tagged _ _ => true | _ => false).length
+  ring := match t.pre.ins.head? with | some (.toKey _ o _) => some o.length | _ => none
+  extra := t.pre.extra.length
+  sigsV1 := t.sigs.map (·.length)
+  basePseudo := (t.base.map (·.pseudo.length)).getD 0
+  ecdhStd := (t.base.map fun b => (b.ecdh.filter fun e => match e with | .std _ _ => true | _ => false).length).getD 0
+  ecdhBp := (t.base.map fun b => (b.ecdh.filter fun e => match e with | .bp _ => true | _ => false).length).getD 0
+  outPk := (t.base.map (·.outPk.length)).getD 0
+  rangeSigs := (t.prun.map (·.rangeSigs.length)).getD 0
+  bps := (t.prun.map (·.bps.length)).getD 0
+  bpps := (t.prun.map (·.bpps.length)).getD 0
+  bpLR := (t.prun.map fun p => p.bps.map (fun x => (x.L.length, x.R.length)) ++ p.bpps.map (fun x => (x.L.length, x.R.length))).getD []
+  mgs := (t.prun.map fun p => p.mgs.map fun m => (m.ss.length, m.ss.map (·.length))).getD []
+  clsags := (t.prun.map fun p => p.clsags.map (·.s.length)).getD []
+  pseudo := (t.prun.map (·.pseudo.length)).getD 0
+
+/-- eleven encodings with the shape each must parse to -/
+def samplesFull : List (Bytes × Shape) := [
+  -- version 1: inputs with rings of 2 and 1 (2 + 1 signatures of 64 bytes), a plain and a tagged output, 3 extra bytes
+  (pre 1 [keyIn 2, keyIn 1] [outK, outT] [1, 2, 3] ++ z (64 * 3),
+   { version := 1, ins := 2, outs := 2, tagged := 1, ring := some 2, extra := 3, sigsV1 := [2, 1] }),
+  -- Full (1): ring of 2 (mixin 1); std ecdh (64 bytes), outPk; one 6176-byte range sig; one MLSAG of 2 rows × (1 + inputs) columns
+  (pre 2 [keyIn 2] [outK] [] ++ [1, 0] ++ z 64 ++ z 32 ++ z 6176 ++ z (2 * 64 + 32),
+   { version := 2, ty := some 1, ins := 1, outs := 1, ring := some 2, ecdhStd := 1, outPk := 1, rangeSigs := 1, mgs := [(2, [2, 2])] }),
+  -- Simple (2): two inputs (2 pseudo outs in the base), a tagged output; one range sig; one MLSAG per input, 1 row × 2 columns
+  (pre 2 [keyIn 1, keyIn 1] [outT] [] ++ [2, 0] ++ z 64 ++ z 64 ++ z 32 ++ z 6176 ++ z 96 ++ z 96,
+   { version := 2, ty := some 2, ins := 2, outs := 1, tagged := 1, ring := some 1, basePseudo := 2, ecdhStd := 1, outPk := 1,
+     rangeSigs := 1, mgs := [(1, [2]), (1, [2])] }),
+  -- Bulletproof (3): ring of 2; u32 count [1,0,0,0] and one Bulletproof; MLSAG 2 rows × 2 columns; one pseudo out
+  (pre 2 [keyIn 2] [outK] [] ++ [3, 0] ++ z 64 ++ z 32 ++ [1, 0, 0, 0] ++ bpBytes ++ z (2 * 64 + 32) ++ z 32,
+   { version := 2, ty := some 3, ins := 1, outs := 1, ring := some 2, ecdhStd := 1, outPk := 1, bps := 1, bpLR := [(1, 1)],
+     mgs := [(2, [2, 2])], pseudo := 1 }),
+  -- Bulletproof2 (4), ordinary: ring of 1; 8-byte ecdh; varint count 1
+  (pre 2 [keyIn 1] [outK] [] ++ [4, 0] ++ z 8 ++ z 32 ++ [1] ++ bpBytes ++ z 96 ++ z 32,
+   { version := 2, ty := some 4, ins := 1, outs := 1, ring := some 1, ecdhBp := 1, outPk := 1, bps := 1, bpLR := [(1, 1)],
+     mgs := [(1, [2])], pseudo := 1 }),
+  -- Bulletproof2 (4) with a COINBASE input FIRST and a key input (ring of 3) second: the prunable part is read with mixin 0
+  -- (1 row per MLSAG); two outputs (one tagged), varint count 2 and two Bulletproofs, one extra byte
+  (pre 2 [genIn, keyIn 3] [outK, outT] [9] ++ [4, 0] ++ z 16 ++ z 64 ++ [2] ++ bpBytes ++ bpBytes ++ z 96 ++ z 96 ++ z 64,
+   { version := 2, ty := some 4, ins := 2, outs := 2, tagged := 1, ring := none, extra := 1, ecdhBp := 2, outPk := 2, bps := 2,
+     bpLR := [(1, 1), (1, 1)], mgs := [(1, [2]), (1, [2])], pseudo := 2 }),
+  -- Clsag (5): ring of 2: one CLSAG with 2 rows
+  (pre 2 [keyIn 2] [outK] [] ++ [5, 0] ++ z 8 ++ z 32 ++ [1] ++ bpBytes ++ z (2 * 32 + 64) ++ z 32,
+   { version := 2, ty := some 5, ins := 1, outs := 1, ring := some 2, ecdhBp := 1, outPk := 1, bps := 1, bpLR := [(1, 1)],
+     clsags := [2], pseudo := 1 }),
+  -- BulletproofPlus (6): two inputs with rings of 2, a tagged output; u8 count 1 and one BulletproofPlus; two CLSAGs of 2 rows
+  (pre 2 [keyIn 2, keyIn 2] [outT] [] ++ [6, 0] ++ z 8 ++ z 32 ++ [1] ++ bppBytes ++ z 128 ++ z 128 ++ z 64,
+   { version := 2, ty := some 6, ins := 2, outs := 1, tagged := 1, ring := some 2, ecdhBp := 1, outPk := 1, bpps := 1,
+     bpLR := [(1, 1)], clsags := [2, 2], pseudo := 2 }),
+  -- version 2 WITHOUT inputs (one output): nothing follows the prefix, no RingCT base
+  (pre 2 [] [outK] [], { version := 2, ins := 0, outs := 1 }),
+  -- Null (0) under version 3 with a coinbase input and an output; under version 0 with a key input (ring of 2) and an output
+  (pre 3 [genIn] [outK] [] ++ [0], { version := 3, ty := some 0, ins := 1, outs := 1 }),
+  (pre 0 [keyIn 2] [outT] [] ++ [0], { version := 0, ty := some 0, ins := 1, outs := 1, tagged := 1, ring := some 2 })]
+
+/-- **the hypotheses of `C02_complete_transaction` are satisfiable by transactions with content**: each of the eleven encodings of
+`samplesFull` parses strictly to a well-formed transaction of the recorded shape. Witnessed: version 1 with two inputs (rings of 2
+and 1); every RingCT type 1..6 with at least one output, one ecdh entry of the variant the type requires, one outPk and one range
+proof of the type's kind (range sig / Bulletproof with the u32 count / with the varint count / BulletproofPlus with the u8 count),
+L and R non-empty; rings of 2 (mixin 1: MLSAG and CLSAG with 2 rows) for types 1, 3, 5, 6; two inputs for types 2, 4, 6; tagged-key
+outputs; non-empty extra; type 4 with a coinbase input first (prunable part read with mixin 0); version 2 without inputs; type 0
+under versions 0 and 3. NOT witnessed: counts needing a multi-byte varint, amounts / fees ≠ 0, anything near the cap. -/
+theorem C02_wf_inhabited_full : ∀ s ∈ samplesFull, ∃ t, wfTx t ∧ strict tx s.1 = some t ∧ shapeOf t = s.2 := by
+  have key : ∀ s ∈ samplesFull, (strict tx s.1).map shapeOf = some s.2 := by decide +kernel
+  intro s hs
+  have h := key s hs
+  cases ht : strict tx s.1 with
+  | none => rw [ht] at h; simp at h
+  | some t =>
+    rw [ht] at h
+    simp only [Option.map_some, Option.some.injEq] at h
+    exact ⟨t, (wfTx_iff_parsed t).2 ⟨_, ht⟩, rfl, h⟩
+
+/-- the same in plain terms, for each RingCT type 1..6: a well-formed transaction of that type whose outputs, ecdh entries, outPk,
+range proofs and ring signatures are all NON-EMPTY lists (so none of the `∀ x ∈ …` clauses of `wfTx` is vacuous for it) -/
+theorem C02_wf_inhabited_rct (ty : Nat) (h1 : 1 ≤ ty) (h6 : ty ≤ 6) : ∃ t b p, wfTx t ∧ t.base = some b ∧ b.ty = ty ∧ t.prun = some p ∧
+    t.pre.ins ≠ [] ∧ t.pre.outs ≠ [] ∧ b.ecdh ≠ [] ∧ b.outPk ≠ [] ∧ (p.rangeSigs ≠ [] ∨ p.bps ≠ [] ∨ p.bpps ≠ []) ∧
+    (p.mgs ≠ [] ∨ p.clsags ≠ []) := by
+  have key : ∀ ty, 1 ≤ ty → ty ≤ 6 → ∃ s ∈ samplesFull, s.2.ty = some ty ∧ s.2.ins ≠ 0 ∧ s.2.outs ≠ 0 ∧ s.2.ecdhStd + s.2.ecdhBp ≠ 0 ∧
+      s.2.outPk ≠ 0 ∧ s.2.rangeSigs + s.2.bps + s.2.bpps ≠ 0 ∧ s.2.mgs.length + s.2.clsags.length ≠ 0 := by
+    intro ty h1 h6
+    have h : ty = 1 ∨ ty = 2 ∨ ty = 3 ∨ ty = 4 ∨ ty = 5 ∨ ty = 6 := by omega
+    rcases h with rfl | rfl | rfl | rfl | rfl | rfl
+    · exact ⟨samplesFull[1], by decide +kernel, by decide +kernel⟩
+    · exact ⟨samplesFull[2], by decide +kernel, by decide +kernel⟩
+    · exact ⟨samplesFull[3], by decide +kernel, by decide +kernel⟩
+    · exact ⟨samplesFull[5], by decide +kernel, by decide +kernel⟩
+    · exact ⟨samplesFull[6], by decide +kernel, by decide +kernel⟩
+    · exact ⟨samplesFull[7], by decide +kernel, by decide +kernel⟩
+  obtain ⟨s, hs, e1, e2, e3, e4, e5, e6, e7⟩ := key ty h1 h6
+  obtain ⟨t, hw, _, hsh⟩ := C02_wf_inhabited_full s hs
+  rw [← hsh] at e1 e2 e3 e4 e5 e6 e7
+  simp only [shapeOf] at e1 e2 e3 e4 e5 e6 e7
+  cases hb : t.base with
+  | none => rw [hb] at e1; simp at e1
+  | some b =>
+    cases hp : t.prun with
+    | none => rw [hp] at e6; simp at e6
+    | some p =>
+      rw [hb] at e1 e4 e5; rw [hp] at e6 e7
+      simp only [Option.map_some, Option.some.injEq, Option.getD_some] at e1 e4 e5 e6 e7
+      refine ⟨t, b, p, hw, hb, e1, hp, ?_, ?_, ?_, ?_, ?_, ?_⟩
+      · intro hn; rw [hn] at e2; exact e2 rfl
+      · intro hn; rw [hn] at e3; exact e3 rfl
+      · intro hn; rw [hn] at e4; exact e4 rfl
+      · intro hn; rw [hn] at e5; exact e5 rfl
+      · by_cases hr : p.rangeSigs = []
+        · by_cases hbp : p.bps = []
+          · refine Or.inr (Or.inr ?_); intro hn; rw [hr, hbp, hn] at e6; exact e6 rfl
+          · exact Or.inr (Or.inl hbp)
+        · exact Or.inl hr
+      · by_cases hm : p.mgs = []
+        · refine Or.inr ?_; intro hn; rw [hm, hn] at e7; exact e7 rfl
+        · exact Or.inl hm
+
+/-- a block: header (major 16, minor 16, timestamp 0, zero prev id, nonce 1), a version 2 miner transaction with a coinbase input,
+one output, two extra bytes and RingCT type 0, and ONE transaction hash -/
+def sampleBlock : Bytes := [16, 16, 0] ++ z 32 ++ [1, 0, 0, 0] ++ (pre 2 [genIn] [outK] [1, 2] ++ [0]) ++ [1] ++ z 32
+/-- **`wfBlock` / `wfHeader` are inhabited**: `sampleBlock` parses strictly to a well-formed block with a miner transaction and one
+transaction hash: the hypotheses of `C02_complete_block`, `C02_strict_block`, `C02_block_roundtrip`, `C02_strict_header`,
+`C02_decoded_wf_block` are satisfiable -/
+theorem C02_wfBlock_inhabited : ∃ x, wfBlock x ∧ wfHeader x.hdr ∧ strict block sampleBlock = some x ∧
+    x.hdr.major = 16 ∧ x.hdr.nonce = 1 ∧ x.hashes.length = 1 ∧ x.miner.pre.ins.length = 1 ∧ x.miner.pre.outs.length = 1 := by
+  have key : (strict block sampleBlock).map (fun x => (x.hdr.major, x.hdr.nonce, x.hashes.length, x.miner.pre.ins.length,
+      x.miner.pre.outs.length)) = some (16, 1, 1, 1, 1) := by decide +kernel
+  cases hx : strict block sampleBlock with
+  | none => rw [hx] at key; simp at key
+  | some x =>
+    rw [hx] at key
+    simp only [Option.map_some, Option.some.injEq, Prod.mk.injEq] at key
+    obtain ⟨k1, k2, k3, k4, k5⟩ := key
+    have hw : wfBlock x := (wfBlock_iff_parsed x).2 ⟨_, hx⟩
+    exact ⟨x, hw, hw.1, rfl, k1, k2, k3, k4, k5⟩
+
+/- non-vacuity by hand (no parsing): a concrete coinbase-style v2 transaction is well-formed -/
 example : wfTx ⟨⟨2, 0, [.gen 5], [], []⟩, [], some ⟨0, 0, [], [], []⟩, none⟩ := by
   have u (n : Nat) (h : n < 2^64) : U64 n := h
   refine ⟨⟨u 2 (by decide), u 0 (by decide), ⟨?_, by decide, by decide⟩, ⟨by simp, by decide, by decide⟩, ⟨by simp, by decide, by decide⟩⟩, by simp, ?_⟩
